@@ -80,8 +80,8 @@ func Run(p *Program) (res *Result, err error) {
 	for _, c := range p.Classes {
 		if !c.IsIface {
 			in.parents[c.Name] = c.Parent
-			in.ifaces[c.Name] = c.Interfaces
 		}
+		in.ifaces[c.Name] = c.Interfaces // for an interface: the interfaces it extends
 	}
 	defer func() {
 		if r := recover(); r != nil {
@@ -398,12 +398,25 @@ func (in *interp) isA(cls, typ string) bool {
 			return true
 		}
 		for _, i := range in.ifaces[c] {
-			if i == typ {
+			if in.ifaceIs(i, typ) {
 				return true
 			}
 		}
 		if c == "Exception" {
 			break
+		}
+	}
+	return false
+}
+
+// ifaceIs: interface i is typ or extends it, transitively.
+func (in *interp) ifaceIs(i, typ string) bool {
+	if i == typ {
+		return true
+	}
+	for _, p := range in.ifaces[i] {
+		if in.ifaceIs(p, typ) {
+			return true
 		}
 	}
 	return false
